@@ -32,6 +32,12 @@ pub enum Kind {
     EndLineChar,
     GlobalDefs,
     Font,
+    MathCode,
+    IntParam,
+    ToksDef,
+    MathCharDef,
+    /// `\font\fx=<file>`: the *definition* of a font selector (value = font id allocated)
+    FontDef,
 }
 
 #[derive(Clone, Copy, Debug, PartialEq, Eq, Hash)]
@@ -69,6 +75,11 @@ fn all_targets() -> Vec<Target> {
     v.push(Target { kind: Kind::EndLineChar, n: 0 });
     v.push(Target { kind: Kind::GlobalDefs, n: 0 });
     v.push(Target { kind: Kind::Font, n: 0 });
+    v.push(Target { kind: Kind::MathCode, n: 0 });
+    v.push(Target { kind: Kind::IntParam, n: 0 });
+    v.push(Target { kind: Kind::ToksDef, n: 0 });
+    v.push(Target { kind: Kind::MathCharDef, n: 0 });
+    v.push(Target { kind: Kind::FontDef, n: 0 });
     v
 }
 
@@ -86,6 +97,11 @@ impl Target {
             Kind::EndLineChar => "\\endlinechar".into(),
             Kind::GlobalDefs => "\\globaldefs".into(),
             Kind::Font => "current font".into(),
+            Kind::MathCode => "\\mathcode`Q".into(),
+            Kind::IntParam => "\\year".into(),
+            Kind::ToksDef => "toksdef \\tb".into(),
+            Kind::MathCharDef => "mathchardef \\mx".into(),
+            Kind::FontDef => "font selector \\fx".into(),
         }
     }
     fn class(&self) -> String {
@@ -148,6 +164,11 @@ fn initial_value(t: Target) -> i64 {
         Kind::EndLineChar => 13,
         Kind::GlobalDefs => 0,
         Kind::Font => 0,
+        Kind::MathCode => 0,
+        Kind::IntParam => 0,
+        Kind::ToksDef => 1,
+        Kind::MathCharDef => 7,
+        Kind::FontDef => 4, // \fa \fb \fc are fonts 1-3, the preamble's \font\fx is the 4th
     }
 }
 
@@ -170,6 +191,12 @@ fn assign_text(t: Target, v: i64, how: How) -> String {
         (Kind::EndLineChar, _) => format!("\\endlinechar={}\\relax ", v),
         (Kind::GlobalDefs, _) => format!("\\globaldefs={}\\relax ", v),
         (Kind::Font, _) => format!("{} ", FONT_NAMES[v as usize]),
+        (Kind::MathCode, _) => format!("\\mathcode`\\Q={}\\relax ", v),
+        (Kind::IntParam, _) => format!("\\year={}\\relax ", v),
+        (Kind::ToksDef, _) => format!("\\toksdef\\tb={}\\relax ", v),
+        (Kind::MathCharDef, _) => format!("\\mathchardef\\mx={}\\relax ", v),
+        // every execution of \font allocates the next font id; the file does not matter
+        (Kind::FontDef, _) => format!("\\font\\fx={} ", ["a", "b", "c"][(v % 3) as usize]),
     }
 }
 
@@ -185,7 +212,11 @@ fn read_text(t: Target) -> Option<String> {
         Kind::CatCode => format!("\\the\\catcode`\\{}\\relax ", CATCODE_CHARS[t.n as usize]),
         Kind::EndLineChar => "\\the\\endlinechar ".to_string(),
         Kind::GlobalDefs => "\\the\\globaldefs ".to_string(),
-        Kind::Font => return None, // read through \vprobe only
+        Kind::Font | Kind::FontDef => return None, // read through \vprobe only
+        Kind::MathCode => "\\the\\mathcode`\\Q\\relax ".to_string(),
+        Kind::IntParam => "\\the\\year ".to_string(),
+        Kind::ToksDef => "\\the\\tb ".to_string(),
+        Kind::MathCharDef => "\\the\\mx ".to_string(),
     })
 }
 
@@ -202,18 +233,30 @@ fn expected_text(t: Target, v: i64, cur: &dyn Fn(Target) -> i64) -> String {
             n: v as u8,
         })
         .to_string(),
-        Kind::Font => v.to_string(),
+        Kind::Font | Kind::FontDef => v.to_string(),
+        Kind::MathCode | Kind::IntParam | Kind::MathCharDef => v.to_string(),
+        Kind::ToksDef => cur(Target {
+            kind: Kind::Toks,
+            n: v as u8,
+        })
+        .to_string(),
     }
 }
 
 const PREAMBLE_FIXED: &str = "\\catcode`\\~=13 \\catcode`\\!=13 \\catcode`\\|=13 \\catcode`\\?=13 \
-\\font\\fa=a \\font\\fb=b \\font\\fc=c ";
+\\font\\fa=a \\font\\fb=b \\font\\fc=c \\font\\fx=a ";
 
 fn preamble(targets: &[Target]) -> String {
     let mut s = String::from(PREAMBLE_FIXED);
     for t in targets {
         match t.kind {
-            Kind::CatCode | Kind::EndLineChar | Kind::GlobalDefs | Kind::Font => {}
+            Kind::CatCode
+            | Kind::EndLineChar
+            | Kind::GlobalDefs
+            | Kind::Font
+            | Kind::MathCode
+            | Kind::IntParam
+            | Kind::FontDef => {}
             _ => s.push_str(&assign_text(*t, initial_value(*t), How::Set)),
         }
     }
@@ -357,13 +400,20 @@ fn gen_value(t: Target, rng: &mut Rng, counter: &mut i64) -> (i64, How) {
         ),
         Kind::GlobalDefs => (rng.range_i64(-1, 1), How::Set),
         Kind::Font => (rng.below(4) as i64, How::Set),
+        Kind::MathCode => (rng.range_i64(0, 32768), How::Set),
+        Kind::IntParam => (fresh(counter), How::Set),
+        Kind::ToksDef => (1 + rng.below(2) as i64, How::Set),
+        Kind::MathCharDef => (fresh(counter) % 32768, How::Set),
+        // placeholder: the value (font id) is assigned by the model when it is executed
+        Kind::FontDef => (rng.below(3) as i64, How::Set),
     }
 }
 
 fn can_prefix_global(t: Target) -> bool {
     // `\global\chardef` is rejected by texcraft with an explicit "cannot be prefixed" error:
     // an unsupported feature, not probed (DESIGN §3.6). \chardef is made global via \globaldefs.
-    t.kind != Kind::CharDef
+    // (\mathchardef likewise)
+    t.kind != Kind::CharDef && t.kind != Kind::MathCharDef
 }
 
 fn gen_random_program(rng: &mut Rng, targets: &[Target]) -> Vec<Op> {
@@ -529,7 +579,18 @@ struct Expect {
 fn probe_fn(vm: &VM<VState>) -> serde_json::Value {
     let s = vm.verif_snapshot();
     let counts = vm.state.registers_i32.values();
+    use vstate::texlang::command::Command;
+    use vstate::texlang::token::CommandRef;
+    let fx = match vm.cs_name_interner().get("fx") {
+        Some(cs) => match vm.commands_map.get_command(&CommandRef::ControlSequence(cs)) {
+            Some(Command::Font(f)) => f.0 as i64,
+            Some(_) => -2,
+            None => -1,
+        },
+        None => -1,
+    };
     json!({
+        "fx": fx,
         "font": vm.current_font().0,
         "commands_groups": s.commands_groups,
         "active_char_groups": s.active_char_groups,
@@ -543,6 +604,7 @@ fn probe_fn(vm: &VM<VState>) -> serde_json::Value {
 
 struct ProbeExpect {
     depth: usize,
+    fx: i64,
     font: i64,
     counts: [i64; 3],
 }
@@ -591,6 +653,7 @@ pub fn build(ops: &[Op], targets: &[Target], dev: Deviation) -> Built {
     // for "order" classes: what happened to each target in the current group so far
     let mut hist: Vec<HashMap<Target, Vec<bool>>> = vec![HashMap::new()];
     let mut trigger_gdef_neg = false;
+    let mut next_font_id: i64 = 5;
     for op in &ops {
         match *op {
             Op::Begin => {
@@ -643,6 +706,11 @@ pub fn build(ops: &[Op], targets: &[Target], dev: Deviation) -> Built {
                     trigger_gdef_neg = true;
                 }
                 let value = match how {
+                    _ if t.kind == Kind::FontDef => {
+                        let id = next_font_id;
+                        next_font_id += 1;
+                        id
+                    }
                     How::Advance => b.cur(t).wrapping_add(v),
                     How::Let => b.cur(Target {
                         kind: Kind::Mac,
@@ -712,8 +780,10 @@ pub fn build(ops: &[Op], targets: &[Target], dev: Deviation) -> Built {
                         }
                     };
                     let ft = Target { kind: Kind::Font, n: 0 };
+                    let fxt = Target { kind: Kind::FontDef, n: 0 };
                     probes.push(ProbeExpect {
                         depth,
+                        fx: if has(fxt) { b.cur(fxt) } else { 4 },
                         font: if has(ft) { b.cur(ft) } else { 0 },
                         counts: [c(1), c(2), c(3)],
                     });
@@ -804,6 +874,12 @@ fn compare(built: &Built, o: &Observed) -> Option<(String, serde_json::Value)> {
             return Some((
                 "wrong-value:Font".into(),
                 json!({"probe": i, "depth": e.depth, "expected_font": e.font, "got": g}),
+            ));
+        }
+        if g["fx"].as_i64() != Some(e.fx) {
+            return Some((
+                "wrong-value:FontDef".into(),
+                json!({"probe": i, "depth": e.depth, "expected_font_id_of_fx": e.fx, "got": g}),
             ));
         }
         let gc: Vec<i64> = g["counts"]
@@ -1044,6 +1120,24 @@ impl Monitor for M {
                 vec![
                     Op::Begin,
                     Op::Assign { t: tilde, v: 7, prefix_global: false, how: How::Set },
+                    Op::End,
+                    Op::ReadAll,
+                ],
+                // open finding C01-gdef-ignores-negative-globaldefs
+                vec![
+                    Op::Assign {
+                        t: Target { kind: Kind::GlobalDefs, n: 0 },
+                        v: -1,
+                        prefix_global: false,
+                        how: How::Set,
+                    },
+                    Op::Begin,
+                    Op::Assign {
+                        t: Target { kind: Kind::Mac, n: 0 },
+                        v: 2,
+                        prefix_global: false,
+                        how: How::Gdef,
+                    },
                     Op::End,
                     Op::ReadAll,
                 ],
